@@ -755,7 +755,7 @@ type walk struct {
 	marks  []string // unfolding markers of enclosing loops (needed to bound partial sums)
 	ord    int
 	nn     string // "p != nil" for the message field being walked (safe mode)
-	bytes  bool // the record contains byte arrays: carry the frame of the byte heap through loops
+	bytes  bool   // the record contains byte arrays: carry the frame of the byte heap through loops
 }
 
 // hasByteArr reports whether a value of type t can contain a byte array.
